@@ -19,10 +19,12 @@ import (
 	"github.com/DemoHn/Zn/pkg/common"
 	"github.com/DemoHn/Zn/pkg/exec"
 	r "github.com/DemoHn/Zn/pkg/runtime"
+	"github.com/DemoHn/Zn/pkg/value"
 	"github.com/DemoHn/Zn/pkg/server"
 	"pgregory.net/rapid"
 
 	h "verif/harness"
+	"verif/zn"
 )
 
 var tmpDir string
@@ -92,6 +94,20 @@ func workerLoop() {
 	}
 }
 
+// hostInputs - the values the host hands to EVERY execution of this process (the same map, the
+// same objects): 输入 names read them, and what one execution does to them in place must not
+// reach the next one
+var hostInputs = r.ElementMap{
+	"入表": zn.ToElem(&zn.ListV{Items: []zn.Value{float64(1), &zn.ListV{Items: []zn.Value{float64(2)}}}}),
+	"入典": zn.ToElem(func() zn.Value {
+		d := zn.NewDict()
+		d.Set("a", &zn.ListV{Items: []zn.Value{float64(1)}})
+		d.Set("b", float64(2))
+		return d
+	}()),
+	"入数": value.NewNumber(7),
+}
+
 func runJob(j job, shared *exec.Interpreter) result {
 	var res result
 	var val r.Element
@@ -113,10 +129,10 @@ func runJob(j job, shared *exec.Interpreter) result {
 					os.MkdirAll(filepath.Dir(path), 0o755)
 					os.WriteFile(path, []byte(src), 0o644)
 				}
-				val, err = z.LoadFile(filepath.Join("p", "主程序.zn")).Execute(r.ElementMap{})
+				val, err = z.LoadFile(filepath.Join("p", "主程序.zn")).Execute(hostInputs)
 				return
 			}
-			val, err = z.LoadScript([]rune(j.Src)).Execute(r.ElementMap{})
+			val, err = z.LoadScript([]rune(j.Src)).Execute(hostInputs)
 		})
 	})
 	exec.VerifTickBudget, exec.VerifMaxDepth = 0, 0
@@ -233,6 +249,8 @@ var probes = []string{
 	"输出（取随机数） >= 0",
 	"输出显示",
 	"输出异常",
+	// values handed in by the host
+	"输入入表、入典、入数\n输出【入表，入典，入数】",
 	// literals denote their value in every execution
 	"输出【4100 + 0，7300 * 2 - 7300，4100 < 4101】",
 	// values handed out by a library: every call must hand out a pristine one
@@ -255,7 +273,7 @@ func genPolluter(t *rapid.T) string {
 	arg := func() string {
 		return rapid.SampledFrom([]string{"1", "41", "“a”", "【1】", "真", "数值", "-0.5"}).Draw(t, "parg")
 	}
-	switch rapid.IntRange(0, 16).Draw(t, "pk") {
+	switch rapid.IntRange(0, 17).Draw(t, "pk") {
 	case 0: // redefine the constructor of a predefined / library type
 		cls := rapid.SampledFrom([]string{"异常", "异常", "HTTP响应", "HTTP请求", "数值", "显示"}).Draw(t, "ccls")
 		imp := ""
@@ -342,6 +360,8 @@ func genPolluter(t *rapid.T) string {
 			"定义盒：\n    其量 = 0\n令甲盒 = （新建盒）\n甲盒之量 = 数值\n以甲盒之量（" + mut + "）\n输出甲盒之量",
 			"以甲遍历【数值】：\n    以甲（" + mut + "）\n输出数值",
 		}).Draw(t, "indirect")
+	case 16: // values handed in by the host, changed in place
+		return "输入入表、入典、入数\n" + rapid.SampledFrom([]string{"以入表（后增：9）", "以入表#2（后增：9）", "以入典（写入：“z”、1）", "以入典#“a”（后增：9）", "以入数（自增：5）", "以入典（移除：“a”）", "以入表（左移）"}).Draw(t, "inmut") + "\n输出【入表，入典，入数】"
 	case 14: // number literals changed in place
 		return rapid.SampledFrom([]string{"输出以4100（自增：1）", "输出以4100（自减：7）", "如何步？\n    输入计\n    以计（自增：1）\n    输出计\n输出（步：7300）", "如何步？\n    输出4100\n（步）得到甲\n以甲（自增：3）\n输出甲"}).Draw(t, "numlit")
 	case 13: // a value handed out by a library, changed in place without being rebound (得到 / argument)
@@ -550,7 +570,17 @@ func TestConcurrentHandlers(t *testing.T) {
 					if !syntax.IdInRange(rune(0x3400 + (round*16+g)%6000)) {
 						id = "乙"
 					}
-					payload, _ := json.Marshal(map[string]string{"SourceCode": "输入甲\n令" + id + " = 数值 + 甲\n令丙 = “{#." + fmt.Sprint((round*16+g)%300) + "}” % 【" + id + "】\n输出【“" + tok + "”，" + id + "，丙】#1", "VarInput": "甲 = " + fmt.Sprint(g)})
+					// ... and uses one of the facilities every execution shares with the others
+					// (predefined methods and types, library functions, built-in methods)
+					shared := [][2]string{
+						{"", "令随 = （取随机数）\n"},
+						{"", "令随 = （取随机数） + （取随机数） + （取随机数）\n"},
+						{"导入《@JSON》\n", "令随 = （解析JSON：“{\"a\":[1,2]}”）\n令随二 = （生成JSON：随）\n"},
+						{"", "令随 = （新建异常：“m”）之内容\n"},
+						{"", "令随 = 【3，1，2】之逆序\n令随二 = “文本”之长度\n"},
+						{"", "令随 = 0\n以值遍历【1，2，3】：\n    随 = 随 + （取随机数）\n"},
+					}[(round+g/2)%6]
+					payload, _ := json.Marshal(map[string]string{"SourceCode": shared[0] + "输入甲\n" + shared[1] + "令" + id + " = 数值 + 甲\n令丙 = “{#." + fmt.Sprint((round*16+g)%300) + "}” % 【" + id + "】\n输出【“" + tok + "”，" + id + "，丙】#1", "VarInput": "甲 = " + fmt.Sprint(g)})
 					req := httptest.NewRequest("POST", "http://zn.test/", bytes.NewReader(payload))
 					rec := httptest.NewRecorder()
 					pg.ServeHTTP(rec, req)
